@@ -15,23 +15,27 @@ RULE_MODULES: Dict[str, str] = {
     "R7": "r07_sites",
     "R19": "r19_cyclegate",
     "R20": "r20_connect",
+    "R22": "r22_classify",
     "R11": "r11_reply",
 }
 
 # property -> list of obligation-id prefixes ("R1" selects every obligation of R1,
 # "R1/O3" only that sub-obligation)
 PROPERTY_RULES: Dict[str, List[str]] = {
-    "C01": ["R1/O1", "R1/O4", "R1/O5", "R2/INFLIGHT", "R2/sink", "R2/anc", "R2/own", "R2/until", "R2/extra", "R3/P1", "R3/P4", "R3/P5", "R5", "R6"],
-    "C02": ["R2/INFLIGHT", "R2/anc", "R2/own", "R3/P", "R4", "R11/schedule", "R11/sched-value", "R11/time-arg", "R11/last-step"],
-    "C05": ["R1/O4", "R1/O5", "R2", "R4/wake", "R4/settle", "R4/wait", "R5", "R6", "R7/site"],
+    "C01": ["R1/O1", "R1/O4", "R1/O5", "R2/INFLIGHT", "R2/sink", "R2/anc", "R2/own", "R2/until", "R2/extra", "R3/P1", "R3/P4", "R3/P5", "R5", "R6",
+            "R20/table/input_delays", "R20/delay", "R19/interval", "R19/anc-closure"],
+    "C02": ["R2/INFLIGHT", "R2/anc", "R2/own", "R3/P", "R4", "R5", "R11/schedule", "R11/sched-value", "R11/time-arg", "R11/last-step", "R20/table/triggers", "R20/delay",
+            "R19/anc-closure"],
+    "C05": ["R1/O4", "R1/O5", "R2", "R4/wake", "R4/settle", "R4/wait", "R5", "R6", "R7/site", "R19/anc-closure"],
+    "C06": ["R5", "R6", "R7/site", "R19"],
+    "C07": ["R2/INFLIGHT", "R2/sink", "R2/anc", "R2/own", "R2/until", "R2/extra", "R3/P3", "R5/store", "R5/update_min", "R19/anc-closure"],
     "C08": ["R6"],
-    "C11": ["R7/R9"],
-    "C06": ["R5", "R6", "R7/site"],
-    "C07": ["R2/INFLIGHT", "R2/sink", "R2/anc", "R2/own", "R2/until", "R2/extra", "R3/P3", "R5/store", "R5/update_min"],
-    "C09": ["R3/R12", "R4/outtime"],
-    "C10": ["R1/O3", "R1/O4", "R2/INFLIGHT", "R2/sink", "R2/own"],
+    "C09": ["R3/R12", "R4/outtime", "R19/interval"],
+    "C10": ["R1/O3", "R1/O4", "R2/INFLIGHT", "R2/sink", "R2/own", "R20/table/successors", "R20/delay", "R20/async"],
+    "C11": ["R7/R9", "R20", "R19/interval", "R19/group_path", "R22/readers", "R22/tuple"],
+    "C12": ["R22"],
     "C13": ["R11", "R3/P2", "R3/P6"],
-    "C16": ["R1/O2", "R1/O4"],
+    "C16": ["R1/O2", "R1/O4", "R20/async", "R20/connect"],
     "C17": ["R2/rt", "R4/wait"],
 }
 
@@ -57,6 +61,8 @@ CLAIMS: Dict[str, Tuple[str, str]] = {
             "the run-ahead bound over executions"),
     "C11": ("identity semantics of simulator groups (no structural equality under equality-based lookups)",
             "rejection table and no-effect-before-rejection are added by R20/R10 when implemented"),
+    "C12": ("the co-finite set algebra exhaustively (pointwise truth tables of every OutSet operator and branch), the inference equations and rejections of parse_set_triple, the defaults table of parse_attrs for all 192 combinations of type x any_inputs x present keys, the forbidden-kind guards, tuple order writer/reader agreement",
+            "the value-level input/output relation of parse_attrs over all concrete descriptions"),
     "C13": ("decision table of scheduler.step / get_outputs over the reply: every malformed reply class has a dominating SimulationError naming the simulator and precedes every effect; the popped step is never re-inserted",
             "reply classes not listed in the statement"),
     "C16": ("the producer waits unconditionally for its async consumers",
